@@ -13,7 +13,7 @@ use super::rng::Rng;
 // Profiles: which workload / fault mix a run uses (swarm configuration)
 // ---------------------------------------------------------------------------
 
-pub const PROFILES: [&str; 18] = [
+pub const PROFILES: [&str; 19] = [
     "plain",      // fault-free payments, 1-3 hashes
     "faults",     // crashes, write faults, reorder, delayed replies, bad pay outcomes
     "crashy",     // many crashes around the pay call
@@ -21,6 +21,7 @@ pub const PROFILES: [&str; 18] = [
     "mpp",        // partial sets, stragglers, timeouts, rejecting HTLCs
     "restart",    // interrupted attempts, attempt ages around the timeout, clock jumps
     "isolation",  // two or three hashes, one frozen
+    "stallmany",  // several payments stalled at once (usually across a restart) + one that must progress
     "wire",       // chunking, back-pressure, logging, many concurrent requests
     "reads",      // failed reads (thorough tier of C02)
     "heights",    // chain growth, notifications dropped/duplicated/stale
@@ -45,6 +46,8 @@ pub fn profile_cfg(profile: &str, content: &mut Rng) -> RunCfg {
         c.f_multi = *content.pick(&[0u32, 0, 150, 300]);
     }
     c.pay_placeholder = content.chance(2, 3);
+    c.big_messages = content.chance(1, 8);
+    c.id_style = *content.pick(&[0u8, 0, 0, 1, 2, 3]);
     if matches!(profile, "inputs" | "wire" | "faults") {
         c.f_notify_drop = 250;
     }
@@ -130,9 +133,46 @@ pub fn profile_cfg(profile: &str, content: &mut Rng) -> RunCfg {
             c.n_hashes = 2 + content.below(2) as usize;
             c.max_sets = 5;
             c.freeze = true;
+            c.freeze_soft = content.chance(1, 3);
+            if content.chance(1, 3) {
+                // several stalled payments at once, possibly across a restart
+                c.freeze_n = 2 + content.below(4) as u8;
+                c.n_hashes = c.freeze_n as usize + 1 + content.below(2) as usize;
+                c.max_sets = c.n_hashes as u32 + 2;
+                c.max_ops = 260;
+                if content.chance(1, 2) {
+                    c.f_crash = 12;
+                    c.max_lifetimes = 2;
+                }
+            }
             c.f_part_fail = 250;
             c.f_underfund = 150;
             c.f_rpc_reorder = 300;
+        }
+        "stallmany" => {
+            // Many payments stalled at once (their parts never resolve),
+            // usually across a restart, and one more payment that must not
+            // be affected.
+            c.freeze = true;
+            c.freeze_soft = true;
+            c.freeze_n = 2 + content.below(5) as u8;
+            c.n_hashes = c.freeze_n as usize + 1;
+            c.max_sets = c.n_hashes as u32 + 1;
+            c.max_parts = 2;
+            c.max_ops = 300;
+            c.f_rpc_reorder = 200;
+            c.mpp_timeout = *content.pick(&[60u64, 600]);
+            // an everyday policy, so that most sets are accepted and paid
+            c.policy_base = *content.pick(&[0u32, 1, 1000]);
+            c.policy_ppm = *content.pick(&[0u32, 5000]);
+            c.policy_delta = *content.pick(&[40u16, 144]);
+            c.cltv_delta = *content.pick(&[0u16, 18, 34]);
+            c.start_height = *content.pick(&[100u32, 800_000]);
+            c.no_self_hints = false;
+            if content.chance(3, 4) {
+                c.crash_when_all_stalled = true;
+                c.max_lifetimes = 2;
+            }
         }
         "wire" => {
             c.chunking = 1 + content.below(2) as u8;
@@ -183,6 +223,7 @@ pub fn profile_cfg(profile: &str, content: &mut Rng) -> RunCfg {
             c.max_sets = 0;
             let n = content.below(5) as usize;
             c.pre_parts = (0..n).map(|_| *content.pick(&[0u8, 0, 0, 1, 2])).collect();
+            pre_part_groups(&mut c, content);
             c.f_part_fail = 450;
             c.f_rpc_reorder = 800;
             c.f_rpc_delay = 300;
@@ -201,6 +242,7 @@ pub fn profile_cfg(profile: &str, content: &mut Rng) -> RunCfg {
             c.max_sets = 0;
             let n = content.below(4) as usize;
             c.pre_parts = (0..n).map(|_| *content.pick(&[0u8, 0, 1, 1, 2])).collect();
+            pre_part_groups(&mut c, content);
             c.f_pay_bad_outcome = 600;
             c.f_part_fail = 450;
             c.f_rpc_reorder = 800;
@@ -247,6 +289,18 @@ pub fn profile_cfg(profile: &str, content: &mut Rng) -> RunCfg {
 }
 
 /// C19: option assignments, valid and invalid.
+/// One run in four: the pre-existing parts belong to two or three pay
+/// commands (groups), e.g. a part of an older group is still unresolved while
+/// the newest group has already failed.
+fn pre_part_groups(c: &mut RunCfg, content: &mut super::rng::Rng) {
+    if c.pre_parts.len() >= 2 && content.chance(1, 4) {
+        let ng = 2 + content.below(2) as u8;
+        for p in c.pre_parts.iter_mut() {
+            *p |= (content.below(ng as u64) as u8) << 4;
+        }
+    }
+}
+
 fn config_profile(c: &mut RunCfg, content: &mut Rng) {
     let mut pick_i64 = |cands: &[i64], r: &mut Rng| -> i64 { *r.pick(cands) };
     let u16s: [i64; 12] = [0, 1, 2, 34, 35, 143, 144, 1008, 65534, 65535, 65536, -1];
@@ -363,7 +417,7 @@ pub struct RandomSched {
     probe_queue: Vec<usize>,
     probe_current: Option<(usize, u32, Option<u64>)>,
     pub probe: bool,
-    freeze_decided: bool,
+    freeze_decided: u32,
     marked: bool,
     /// RPC ids held back until the given main step (slow node).
     stalled: Vec<(u64, u32)>,
@@ -385,7 +439,7 @@ impl RandomSched {
             probe_queue: Vec::new(),
             probe_current: None,
             probe,
-            freeze_decided: false,
+            freeze_decided: 0,
             marked: false,
             stalled: Vec::new(),
             stall_seen: 0,
@@ -401,10 +455,11 @@ impl RandomSched {
     }
 
     fn frozen(&self, sim: &Sim, hash_ix: u8) -> bool {
-        match sim.w.frozen_hash {
-            Some(f) => f as u8 == hash_ix,
-            None => false,
-        }
+        sim.w.hard_frozen(hash_ix as usize)
+    }
+
+    fn stalled_hash(&self, sim: &Sim, hash_ix: u8) -> bool {
+        sim.w.stalled(hash_ix as usize)
     }
 
     fn pick_fault(&mut self, sim: &Sim, method: Method, kind_is_state_write: bool) -> RpcFault {
@@ -472,6 +527,25 @@ impl RandomSched {
         // C14: decide once which hash gets frozen, after a few steps.
         // (the freeze itself is applied by filtering candidates below)
 
+        // Crash once every hash to be stalled is stalled and one more payment
+        // is in flight (stallmany profile).
+        if c.crash_when_all_stalled && sim.w.init_acked && node.lifetime < c.max_lifetimes && node.lifetime == 0 {
+            let n = (c.freeze_n.max(1) as usize).min(c.n_hashes.saturating_sub(1)).min(NH - 1);
+            let n_stalled = (0..n).filter(|hx| sim.w.stalled(*hx)).count();
+            let others_paying = (n..c.n_hashes.min(NH)).any(|hx| {
+                let h = super::content::pool().hashes[hx];
+                node.has_pending(&h)
+            });
+            let go = (n_stalled == n && others_paying) || (n_stalled >= 2 && self.main_steps > c.max_ops / 3);
+            if go && self.rng.chance(1, 3) {
+                self.crashes += 1;
+                self.last_apply_method = None;
+                return Some(Op::Crash {
+                    lose_answers: self.rng.chance(1, 4),
+                    down_s: 1,
+                });
+            }
+        }
         // Crash?
         if sim.w.init_acked && node.lifetime < c.max_lifetimes && c.f_crash > 0 {
             let mut p = c.f_crash;
@@ -525,19 +599,40 @@ impl RandomSched {
             }
         }
 
-        // C14: freeze hash 0 once it has something in flight.
-        if c.freeze && !self.freeze_decided && sim.w.init_acked {
-            let h0 = super::content::pool().hashes[0];
-            let busy = node.outstanding_rpcs().any(|(_, r)| r.hash == Some(h0))
-                || node.cmd_running(&h0)
-                || node.has_pending(&h0)
-                || super::oracle::Oracles::held_for(&sim.w, &h0).next().is_some();
-            if busy && self.rng.chance(1, 4) {
-                self.freeze_decided = true;
-                return Some(Op::Freeze { hash: 0 });
+        // C14: freeze hashes 0..freeze_n once they have something in flight
+        // (hard: everything for the hash is withheld; soft: only its outgoing
+        // payment stalls, once it has one).
+        if c.freeze && sim.w.init_acked {
+            let n = (c.freeze_n.max(1) as usize).min(c.n_hashes.saturating_sub(1)).min(NH - 1);
+            for hx in 0..n {
+                if self.freeze_decided & (1 << hx) != 0 {
+                    continue;
+                }
+                let h = super::content::pool().hashes[hx];
+                let paying = node.cmd_running(&h) || node.has_pending(&h);
+                let busy = paying
+                    || node.outstanding_rpcs().any(|(_, r)| r.hash == Some(h))
+                    || super::oracle::Oracles::held_for(&sim.w, &h).next().is_some();
+                let go = if c.freeze_soft {
+                    // (with a part in flight, so that the stall survives a restart)
+                    node.has_pending(&h) && self.rng.chance(1, 2)
+                } else {
+                    busy && self.rng.chance(1, 4)
+                };
+                if go {
+                    self.freeze_decided |= 1 << hx;
+                    return Some(Op::Freeze {
+                        hash: hx as u8,
+                        soft: c.freeze_soft,
+                    });
+                }
             }
         }
 
+        // stallmany: the payments that are to stay free make no progress on
+        // the node until the others are stalled and the crash has happened
+        // (or half the run is over), so that all of them are in flight at once.
+        let hold_free = c.crash_when_all_stalled && node.lifetime == 0 && self.main_steps < c.max_ops / 2;
         let mut cands: Vec<(Op, u32)> = Vec::new();
         // Offer
         if self.sets_offered < c.max_sets {
@@ -545,9 +640,13 @@ impl RandomSched {
             cands.push((
                 Op::Offer {
                     set: self.sets_offered,
-                    hash: None,
+                    hash: if c.freeze && c.freeze_n > 1 && (self.sets_offered as usize) < c.n_hashes {
+                        Some(self.sets_offered as u8)
+                    } else {
+                        None
+                    },
                 },
-                if idle { 60 } else { 12 },
+                if idle || (c.freeze && c.freeze_n > 1) { 60 } else { 12 },
             ));
         }
         // Deliver
@@ -655,7 +754,10 @@ impl RandomSched {
                 continue;
             }
             let hix = Sim::hash_ix_of(&Some(cmd.hash));
-            if self.frozen(sim, hix) {
+            if self.stalled_hash(sim, hix) {
+                continue;
+            }
+            if hold_free && cmd.parts_created > 0 && (hix as usize) >= c.freeze_n.max(1) as usize {
                 continue;
             }
             let my_pending = node
@@ -722,7 +824,10 @@ impl RandomSched {
                 continue;
             }
             let hix = Sim::hash_ix_of(&Some(p.hash));
-            if self.frozen(sim, hix) {
+            if self.stalled_hash(sim, hix) {
+                continue;
+            }
+            if hold_free && (hix as usize) >= c.freeze_n.max(1) as usize {
                 continue;
             }
             let complete = !self.rng.permille(c.f_part_fail);
@@ -880,10 +985,8 @@ impl RandomSched {
             return None;
         }
         let node = &sim.w.node;
-        let frozen = |h: u8| match sim.w.frozen_hash {
-            Some(f) => f as u8 == h,
-            None => false,
-        };
+        let frozen = |h: u8| sim.w.hard_frozen(h as usize);
+        let stalled = |h: u8| sim.w.stalled(h as usize);
         if !sim.w.plugin_up {
             return None;
         }
@@ -925,7 +1028,7 @@ impl RandomSched {
         }
         // 3. pay commands and parts
         for (ci, cmd) in node.pay_cmds.iter().enumerate() {
-            if cmd.state != CmdState::Running || frozen(Sim::hash_ix_of(&Some(cmd.hash))) {
+            if cmd.state != CmdState::Running || stalled(Sim::hash_ix_of(&Some(cmd.hash))) {
                 continue;
             }
             if cmd.parts_created == 0 {
@@ -937,7 +1040,7 @@ impl RandomSched {
             }
         }
         for (pi, p) in node.parts.iter().enumerate() {
-            if p.status == PartStatus::Pending && !frozen(Sim::hash_ix_of(&Some(p.hash))) {
+            if p.status == PartStatus::Pending && !stalled(Sim::hash_ix_of(&Some(p.hash))) {
                 let complete = self.phase == Phase::Probe || self.rng.permille(sim.w.cfg.recipient_coop);
                 return Some(Op::Part {
                     part: pi as u32,
@@ -947,7 +1050,7 @@ impl RandomSched {
             }
         }
         for (ci, cmd) in node.pay_cmds.iter().enumerate() {
-            if cmd.state != CmdState::Running || frozen(Sim::hash_ix_of(&Some(cmd.hash))) {
+            if cmd.state != CmdState::Running || stalled(Sim::hash_ix_of(&Some(cmd.hash))) {
                 continue;
             }
             let outcome = if node.has_complete(&cmd.hash) {
@@ -963,7 +1066,7 @@ impl RandomSched {
         // 4. anything still held and not frozen? push time past every deadline.
         let held_unfrozen = node
             .held_calls()
-            .any(|(_, c)| !frozen(node.htlc(c.hid).spec.hash_ix as u8));
+            .any(|(_, c)| !stalled(node.htlc(c.hid).spec.hash_ix as u8));
         if held_unfrozen && self.time_pushes < 3 {
             self.time_pushes += 1;
             return Some(Op::Time {
